@@ -279,3 +279,27 @@ func (s *Server) loop() {
 func (e *Exchange) String() string {
 	return fmt.Sprintf("#%d theta=%v dropped=%v interleaved=%v sent=%d", e.Seq, e.Theta, e.Dropped, e.Interleaved, len(e.Sent))
 }
+
+// Variant builds the reply the model would give to this exchange if its clock were offset by theta
+// (same receive/send instants R and S): used to script several distinguishable candidate replies.
+func (e *Exchange) Variant(theta time.Duration) []byte {
+	var resp ntp.Packet
+	resp.SetVersion(4)
+	resp.SetMode(ntp.ModeServer)
+	resp.Stratum = 1
+	resp.Poll = e.Req.Poll
+	resp.Precision = -25
+	resp.ReferenceID = 0x4d4f444c
+	resp.ReceiveTime = ntp.Time64FromTime(e.R.Add(theta))
+	if e.Interleaved {
+		resp.OriginTime = e.Req.ReceiveTime
+		resp.TransmitTime = e.Cited.SentTx64
+	} else {
+		resp.OriginTime = e.Req.TransmitTime
+		resp.TransmitTime = ntp.Time64FromTime(e.S.Add(theta))
+	}
+	resp.ReferenceTime = resp.TransmitTime
+	b := make([]byte, ntp.PacketLen)
+	ntp.EncodePacket(&b, &resp)
+	return b
+}
